@@ -5,6 +5,7 @@
 #include <sys/mman.h>
 #include <unistd.h>
 
+#include <deque>
 #include <map>
 
 #include "common.h"
@@ -94,6 +95,11 @@ void runDec(const json& ep)
     const bool recheck = ep.value("recheck", false);
     std::vector<std::shared_ptr<Packet>> kept;
     std::string keptOrig = "[";
+    // real encoders feeding this decoder: their frames wait in per-encoder queues and are fed, dropped,
+    // duplicated or held back as the case says
+    std::map<int, Encoder> encoders;
+    std::map<int, std::deque<std::vector<uint8_t>>> queues;
+    std::map<int, std::vector<uint8_t>> lastFed, held;
     long k = 0;
     for (const auto& op : ep.at("ops"))
     {
@@ -125,9 +131,81 @@ void runDec(const json& ep)
             *state = slots.at(slot);
             o.obj().kv("e", "dec.restore").kv("slot", slot).end();
         }
-        else if (name == "decode")
+        else if (name == "enc.new")
         {
-            const std::vector<uint8_t> in = bytesOf(op.at("in"));
+            const int e = op.at("enc").get<int>();
+            encoders[e] = Encoder();
+            encoders[e].setDeviceId(static_cast<uint16_t>(op.at("dev").get<int>()));
+            encoders[e].setStreamId(static_cast<uint8_t>(op.at("stream").get<int>()));
+            const int target = op.value("seq", 0);
+            const uint8_t one = 0x5A;
+            Packet w;
+            w.setPayload(Payload(PayloadType(CmpHeader::MessageType::data, 0xFF), &one, 1));
+            for (long guard = 0; target != 0 && encoders[e].getSequenceCounter() != target && guard < 70000; ++guard)
+                encoders[e].encode(w, {0, 64});
+            o.obj().kv("e", "dec.note").kv("what", "enc.new").kv("enc", e).end();
+        }
+        else if (name == "enc.encode")
+        {
+            const int e = op.at("enc").get<int>();
+            std::vector<Packet> batch;
+            for (const auto& p : op.at("batch"))
+                batch.push_back(makePacket(p));
+            DataContext ctx{op.at("ctx").at("min").get<size_t>(), op.at("ctx").at("max").get<size_t>()};
+            for (auto& f : encoders[e].encode(batch.begin(), batch.end(), ctx))
+                queues[e].push_back(std::move(f));
+            // what this sender has now sent (declared to the judge)
+            o.obj().kv("e", "dec.sent").arr("msgs");
+            for (const auto& p : op.at("batch"))
+            {
+                o.obj().arr("ep").val(static_cast<long long>(encoders[e].getDeviceId())).val(static_cast<long long>(encoders[e].getStreamId())).endArr();
+                o.key("p");
+                logBatchPacket(o, p);
+                o.end();
+            }
+            o.endArr().end();
+        }
+        else if (name == "decode" || name == "feed" || name == "refeed" || name == "release" || name == "drop" || name == "hold")
+        {
+            std::vector<uint8_t> in;
+            if (name == "decode")
+                in = bytesOf(op.at("in"));
+            else
+            {
+                const int e = op.at("enc").get<int>();
+                bool have = false;
+                if (name == "feed" || name == "drop" || name == "hold")
+                {
+                    if (!queues[e].empty())
+                    {
+                        in = queues[e].front();
+                        queues[e].pop_front();
+                        have = true;
+                    }
+                    if (have && name == "hold")
+                        held[e] = in;
+                    if (have && name == "feed")
+                        lastFed[e] = in;
+                }
+                else if (name == "refeed" && lastFed.count(e))
+                {
+                    in = lastFed[e];
+                    have = true;
+                }
+                else if (name == "release" && held.count(e))
+                {
+                    in = held[e];
+                    held.erase(e);
+                    lastFed[e] = in;
+                    have = true;
+                }
+                if (!have || name == "drop" || name == "hold")
+                {
+                    o.obj().kv("e", "dec.note").kv("what", name).kv("enc", e).kv("had", have).end();
+                    emitLine(o.str());
+                    continue;
+                }
+            }
             const bool isNull = op.value("null", false);
             std::string before;
             if (hook && op.value("pendBefore", false))
